@@ -13,11 +13,26 @@ CLAIMED = {
         text="C04_tree: check_text accepts exactly the texts that are one rooted tree in EXPLAIN AST layout with correct (children N), no Go artefacts and ClickHouse node kinds (sound and complete w.r.t. rendering of rose trees). C04_select: for the SelectQuery, SelectWithUnionQuery (every union tail), inherited-WITH and intersect printers — transcribed with the count code and the emit code kept separate as in Go — the header count equals the number of emitted children for every field combination (iff the parser-established LIMIT BY invariant for SelectQuery), hence the output is a tree. Tied by Go-vs-extracted-model comparison on ASTs built directly (exhaustive 2^16/2^13 field combinations) and by running the extracted verified checker on the real EXPLAIN of every corpus statement.",
         design_ref="DESIGN.md §4 C04",
         note="Partial: DDL/ALTER/expression/table printers are covered only by the verified oracle applied to real output (search), not by a model. Trusted: hand-written printer model (validated by correspondence), extraction, node-kind generator."),
+    "C05": dict(
+        technique="Coq proofs on the lexer model (separator invisibility, follow-independence, keyword case, position blindness) + abstract-machine indistinguishability theorem instantiated by a generated inventory of position/raw-value reads; metamorphic re-layout run",
+        text="C05: over the lexer model, replacing/inserting/removing separators (all whitespace runes, --/# comments, nested block comments) at a token boundary leaves the comment-free token kinds and values unchanged, keyword case never changes a token kind, and the lexer is blind to positions; over parser and printer, the inventory regenerated from /repo shows positions are only copied into nodes, printed in error messages, compared in progress guards or used for the spacing detection inside ::-operand literals (the stated exception), and no raw token value is compared case-sensitively with a keyword-like constant — so by the abstract-machine theorem sig-equal token lists are indistinguishable; semicolon clauses by the driver theorems. Every corpus statement is re-laid-out K times on the implementation and EXPLAIN compared.",
+        design_ref="DESIGN.md §4 C05",
+        note="Partial: the unconditional lexer theorems cover identifiers/keywords, integers/decimals, simple quoted tokens and operators (other classes only under a lexer-computed boundary condition); EOF-position caveat (pos_inj hypothesis). Trusted: posreadgen's soundness claim."),
+    "C06": dict(
+        technique="Coq induction on the ParseStatements model over scripts with arbitrary semicolon placement + lexer theorems for ';' inside strings and comments; joined-vs-individual harness",
+        text="C06: the driver model maps s1;...;sn (any extra/leading/trailing/doubled semicolons) to the per-statement results in order, threading nothing but remaining tokens and errors; for every byte string v the quoted spelling of v lexes to one STRING token (so a ';' inside never splits), and a separator of whitespace and complete comments (any bodies) is invisible to the token stream. Scripts of corpus/synthetic statements are compared statement by statement with the parts parsed alone.",
+        design_ref="DESIGN.md §4 C06",
+        note="Partial: that the real statement parsers stop exactly at the ';' after a valid statement (delimiter-respect) is a hypothesis of the driver theorem, tested only."),
     "C08": dict(
         technique="Coq proof by induction over expression trees on a hand-written model of the Pratt parser + independent reference printer; three-way extraction correspondence",
         text="C08_precedence_and_associativity: for every well-formed surface expression tree of the property's language (unbounded depth and operator count) and every follow context, explain_model (parse_model (print e ++ rest)) = reference tree of e (precedence climb OR < AND < NOT < comparison < || < additive < multiplicative < unary minus, left associative, ClickHouse function names, AND/OR/|| chains flattened); plus totality of the model. Tied to the code by comparing code, extracted model and extracted spec on all shapes with up to 3/4 binary operators and random deeper expressions.",
         design_ref="DESIGN.md §4 C08",
         note="Trusted: hand-written model of parseExpression & printers (fragment, explicit OutOfFragment elsewhere) validated by correspondence; NOT( and minus-literal folding follow the code/goldens where the property text is silent."),
+    "C09": dict(
+        technique="Coq proofs on lexer + literal models against independent canonical printers (strings for all byte strings, integers for all n, float layout for all digit strings/exponents with strconv as a Section oracle); three-way extraction correspondence",
+        text="C09: for every byte string v, lexing quote(v) gives STRING v and the printer renders canon_string v (two-level escaping); for all n: UInt64_n below 2^64, Int64_-n down to -2^63, -0 as UInt64_0, float branch beyond, hex/binary by value; FormatFloat's fixed/exponent layout equals an independent canon_float for every digit string and exponent (which digits are shortest is strconv's contract, an explicit premise); nesting in arrays/tuples and negation at any depth. Tied by comparing code, extracted model and spec on all 1- and 2-byte strings, integer and float boundaries and random cases.",
+        design_ref="DESIGN.md §4 C09",
+        note="Trusted: strconv oracle contract; hand-written models validated by correspondence. Open known finding: binary/octal/underscored-hex literals >= 2^64 print as strings (C09_big_binary_refuted)."),
     "C10": dict(
         technique="Coq interleaving theorem instantiated by a shared-write inventory regenerated from source (go/types); obligation by vm_compute; race-detector workload",
         text="C10_concurrent_calls_behave_as_alone: threads whose shared write set is empty are data-race free and each observes exactly what it observes alone, for every schedule (Conc/Interleave.v); the write set of the library is the inventory of writes to package-level variables and through AST arguments regenerated from /repo on every run, and the obligation 'inventory has no shared write' is computed in the kernel. A new package-level flag, a memoising write into an AST node, a map range in the printer break the obligation and name the site. go build -race workload on distinct trees and on one shared tree compares every result with the sequential baseline.",
@@ -53,6 +68,11 @@ CLAIMED = {
         text="C16: for every statement parser with progress, every token list and every cancellation oracle: never cancelled => never a context error and the full result; first done at iteration k => exactly the statements of the first k iterations (a prefix) with the context error; nil error => all input consumed; pre-cancelled => ([], ctx error) unless the input has no token. Tied by driving the real Parse with reader-side cancellation at every byte and poll-side cancellation at every k and checking the allowed outcome set.",
         design_ref="DESIGN.md §4 C16",
         note="Trusted: hand-written driver model; progress of the statement parser is C02's theorem."),
+    "C17": dict(
+        technique="Coq: computed obligation over the token table regenerated from token.go + general lemma about the Keywords map construction; exhaustive API probes per keyword",
+        text="C17 (table half): over the token table regenerated from token.go on every run: every keyword has a unique non-empty upper-case spelling, Lookup finds it from that spelling and from no other string, IsKeyword classifies it, Lookup returns only IDENT or keywords — the finite facts computed in the kernel, 'from no other string' by a general lemma about how init() builds the map. Naming half (C17_naming.v when present): every keyword in any letter case as column name after a dot, column alias and table alias over the SELECT-core models. Every keyword of the current table x 3 positions x 4 letter cases is probed through the real API.",
+        design_ref="DESIGN.md §4 C17",
+        note="Trusted: gentables translator; model of token.init/Lookup. Naming half relies on the SELECT-core model (correspondence)."),
     "C18": dict(
         technique="Coq proof by mutual induction on type trees over a hand-written model of parseDataType/FormatDataType + independent canonical printer; three-way extraction correspondence",
         text="C18: for every well-formed type tree of the property's constructor set at any depth, both CAST(x AS T) and x::T show exactly the canonical text (names as written, ', ' separators, string arguments escaped at three levels inside the literal), over the model of parseDataType, parseCast, parseCastOperator, FormatDataType and the cast printer; tokens with any spacing/comments erase to the same token list. Tied by comparing code, extracted model and spec on random type trees covering every parent/child constructor pair, six separator styles and mutants.",
